@@ -378,6 +378,29 @@ theorem noncanonical_cell_witnesses :
         = true) := by
   decide +kernel
 
+/-- a storage-phase transaction without messages (`trans_storage$0001`), 100 → 99 in logical time -/
+def txVal : Val :=
+  let h : List UInt8 := List.replicate 32 7
+  Val.list [.magic, .bytes h, .int 100, .bytes h, .int 99, .int 1700000000, .int 0, .bytes Prim.s_active,
+    .bytes Prim.s_active,
+    Val.list [.none, .nil],
+    Val.list [.int 1000, Val.list [.nil]],
+    Val.list [.magic, .bytes h, .bytes h],
+    Val.ctor "TransStorage" (Val.list [Val.list [.int 5, .none, .bytes Prim.s_acst_unchanged]])]
+
+set_option maxRecDepth 100000 in
+/-- `reencode_tlb_Transaction` / `reencode_tlb_Account` are not vacuous either (TEST on literals): the Transaction cell
+the encoder writes for `txVal` (three references: messages, state update, description) passes the check and decodes;
+`account_none$0` is a canonical Account -/
+theorem canonical_transaction_example :
+    inDom env 30 desc_tlb_Transaction txVal = true ∧
+    (match encode env 30 desc_tlb_Transaction txVal Builder.empty with
+      | .ok b => canonicalCell env 30 desc_tlb_Transaction b.toCell &&
+          (decode env 30 desc_tlb_Transaction (Slice.ofCell b.toCell)).isOk && b.refs.length == 3
+      | _ => false) = true ∧
+    canonicalCell env 30 desc_tlb_Account (Cell.mk 0 0 [false] []) = true := by
+  decide +kernel
+
 end CanonTest
 
 /-! ## Regenerated instances -/
@@ -732,14 +755,14 @@ example :
 
 /-! ## The encoder never panics (values outside `inDom` included) -/
 
-/-- **marshal_no_panic** — `tlb.Marshal` of ANY value of ANY descriptor into any cell under construction returns a
-cell or an error, never a panic: no domain condition, no well-formedness condition. The values `inDom` excludes are
-covered here: a nil pointer where the schema is not optional (also a nil pointer to a type with a value-receiver
-`MarshalTLB`, which the Go encoder called through the nil pointer before the `fix:`), a `MsgAddress` whose selected
-payload pointer is nil, a `VmCellSlice` without its cell, values of the wrong shape, dictionaries whose value codec
-fails. (By induction on the fuel over the four mutually recursive encoders; C05's `Hashmap.marshal` panics only if the
-value codec does.) -/
-theorem marshal_no_panic (env : Env) (fuel : Nat) (T : Ty) (v : Val) (b : Builder) (p : String) :
+/-- **marshal_no_panic_by_construction** (formerly `marshal_no_panic`) — TRUE BY CONSTRUCTION of the model: after the
+three `fix:` commits that turned the nil dereferences of the Go encoder into errors, no definition on the encoder
+path of the model (`Tlb/Enc.lean`, `Tlb/Prims.lean`, `Tlb/Basic.lean`, C05's `Hashmap.marshal`) contains a `.panic`
+constructor, so this theorem only records that fact (it keeps failing to elaborate if a panic point is ever modelled
+again without a guard). It is NOT evidence that the Go encoder cannot panic: that rests on the three repairs, on the
+correspondence lines (the Go side runs under `recover`; a panic is the answer `panic`, which the model never gives)
+and on the Go-side oracle `go.rt` over all registered types, nil pointers in non-optional positions included. -/
+theorem marshal_no_panic_by_construction (env : Env) (fuel : Nat) (T : Ty) (v : Val) (b : Builder) (p : String) :
     encode env fuel T v b ≠ .panic p :=
   ((NPInv.all env fuel).enc T v b).ne p
 
@@ -810,6 +833,38 @@ theorem vmstack_convention (env : Env) (hEnv : EnvWF env) (e : Ty) (hw : wfb env
     ∃ rest, decode env (fuel + 1) (.vmStack e) (Slice.ofCell b'.toCell) =
       .ok (Val.list (Val.toList v).reverse, rest) :=
   vmstack_roundtrip hEnv e hw fuel v hd hlen b' he
+
+/-- `VmStack.Put(val)`: the value becomes the new TOP of the stack (`*s = append(VmStack{val}, *s...)`) -/
+def stackPut (s v : Val) : Val := .cons v s
+
+/-- the stack built by pushing `args` in order with `Put`, starting from the empty stack -/
+def stackOfPuts (args : List Val) : Val := args.foldl stackPut .nil
+
+theorem toList_foldl_put (args : List Val) : ∀ (acc : Val),
+    Val.toList (args.foldl stackPut acc) = args.reverse ++ Val.toList acc := by
+  induction args with
+  | nil => intro acc; simp
+  | cons a rest ih =>
+    intro acc
+    simp only [List.foldl_cons, ih, stackPut, Val.toList, List.reverse_cons, List.append_assoc, List.singleton_append]
+
+/-- **vmstack_put_convention** — the argument side of the API: pushing `a₁ … aₙ` with `Put` (31 call sites of the
+generated get-method wrappers) makes `aₙ` the top of the stack, `[aₙ, …, a₁]`; marshalled and unmarshalled it reads back
+as `[a₁, …, aₙ]` — the results of a method come bottom-first, i.e. in the order in which they were pushed. (Composition
+of `Put` = prepend with `vmstack_convention`; the Go `Put` is compared with `stackPut` on every run: op `tlb.stackput`;
+`VmStack.Unmarshal(dest)` filling field i from entry i, the tuple helpers and the cell / slice helpers have Go-side
+oracles: `go.vmstack.dest`, `go.vmtuple`, `go.vmcell.rt`.) -/
+theorem vmstack_put_convention (env : Env) (hEnv : EnvWF env) (e : Ty) (hw : wfb env e = true) (fuel : Nat)
+    (args : List Val) (hd : inDomStack env fuel e (stackOfPuts args) = true)
+    (hlen : Prim.valLen (stackOfPuts args) < 2 ^ 24) (b' : Builder)
+    (he : encode env (fuel + 1) (.vmStack e) (stackOfPuts args) Builder.empty = .ok b') :
+    Val.toList (stackOfPuts args) = args.reverse ∧
+    ∃ rest, decode env (fuel + 1) (.vmStack e) (Slice.ofCell b'.toCell) = .ok (Val.list args, rest) := by
+  have ht : Val.toList (stackOfPuts args) = args.reverse := by
+    simpa [stackOfPuts, Val.toList] using toList_foldl_put args .nil
+  obtain ⟨rest, hr⟩ := vmstack_convention env hEnv e hw fuel _ hd hlen b' he
+  rw [ht, List.reverse_reverse] at hr
+  exact ⟨ht, rest, hr⟩
 
 /-! ## Integer families (translator X2) -/
 
